@@ -28,6 +28,10 @@ MAP = [  # (substring of the commit subject, property)
  ("xsi:type could substitute a value of any registered class", "C04"),
  ("xsi:type derivation check accepted", "C04"),
  ("xsi:type could swap one array type for another", "C04"),
+ ("NullServer never closed the context of a call that ended in an error", "C14"),
+ ("NullServer call to an unknown method left its announced context open", "C14"),
+ ("NullServer(ostr=True) fired no method_exception_object", "C14"),
+ ("cannot be serialized was answered over WSGI with 200 OK", "C14"),
  ("attribute cache published a half-built attribute dict", "C12"),
  ("answered with another request's schema error", "C12"),
  ("null entry in a list of objects was written as an empty object", "C02"),
